@@ -398,7 +398,7 @@ func (e *engine) run(c *Case, f *Fault) runOut {
 	var out runOut
 	out.tp = tp
 	s := sched.New(sched.Config{Policy: c.Policy, SwitchPct: c.SwitchPct, YieldPct: c.YieldPct, PCTDepth: 2, PCTHorizon: 2000,
-		Salt: c.Salt, Budget: 2000000}, tp)
+		Salt: c.Salt, Budget: 300000}, tp)
 	out.s = s
 	// the production interrupt seam
 	scope.InterruptCheck = func() {
